@@ -131,6 +131,11 @@ func (z *ZEnv) setHi(s string, k int64) {
 	}
 }
 
+func (z *ZEnv) lenSymV(name string, v ssa.Value) Lin {
+	z.symVal[name] = v
+	return z.lenSym(name)
+}
+
 func (z *ZEnv) lenSym(name string) Lin {
 	z.setLo(name, 0)
 	return symLin(name, true)
@@ -193,15 +198,10 @@ func (z *ZEnv) fieldVersion(fa *ssa.FieldAddr, at *ssa.UnOp) (string, ssa.Value)
 			if _, isDefer := in.(*ssa.Defer); isDefer {
 				return
 			}
-			// a call receiving the address of the struct (pointer receiver / pointer arg) may modify it
-			for _, a := range CallArgs(x) {
-				if pt, ok := a.Type().Underlying().(*types.Pointer); ok {
-					if n, ok := pt.Elem().(*types.Named); ok && sameNamed(n, f.Struct) {
-						if callMayWriteField(x, f) {
-							mods = append(mods, in)
-						}
-					}
-				}
+			// a module callee that (transitively) stores to the field may modify it, whatever it is given;
+			// a callee without a body only through a pointer to the struct among its arguments
+			if callMayWriteField(x, f) {
+				mods = append(mods, in)
 			}
 		}
 	})
@@ -256,17 +256,100 @@ func sameNamed(a, b *types.Named) bool {
 	return a.Obj() == b.Obj() || (a.Origin() != nil && b.Origin() != nil && a.Origin().Obj() == b.Origin().Obj())
 }
 
-// callMayWriteField: does the (static) callee store to field f? Unknown callees: yes.
+// callMayWriteField: does the (static) callee store to field f, directly or through static calls?
+// Unknown callees, dynamic calls that are handed a pointer to the struct, and chains deeper than the bound: yes.
+var mayWriteMemo = map[*ssa.Function]map[string]bool{}
+
 func callMayWriteField(c ssa.CallInstruction, f FieldRef) bool {
 	callee := StaticCallee(c)
-	if callee == nil || callee.Blocks == nil {
-		return true
+	if _, isBuiltin := c.Common().Value.(*ssa.Builtin); isBuiltin {
+		return false // len/cap/copy/append/delete/clear do not store to struct fields
+	}
+	if callee == nil && !c.Common().IsInvoke() {
+		return true // call of a function value: unknown callee
+	}
+	if callee == nil && c.Common().IsInvoke() {
+		// interface method: any module implementation may be the callee
+		for _, m := range moduleImpls(c) {
+			if fnMayWriteField(m, f) {
+				return true
+			}
+		}
+	}
+	if callee == nil || callee.Blocks == nil || !moduleFn(callee) {
+		for _, a := range CallArgs(c) {
+			if pt, ok := a.Type().Underlying().(*types.Pointer); ok {
+				if n, ok := pt.Elem().(*types.Named); ok && sameNamed(n, f.Struct) {
+					return true
+				}
+			}
+			switch cb := a.(type) {
+			case *ssa.MakeClosure:
+				if fnMayWriteField(cb.Fn.(*ssa.Function), f) {
+					return true
+				}
+			case *ssa.Function:
+				if fnMayWriteField(cb, f) {
+					return true
+				}
+			}
+		}
+		return false
+	}
+	return fnMayWriteField(callee, f)
+}
+
+// ModuleMethods is installed by the loader: module methods by name (for interface dispatch).
+var ModuleMethods map[string][]*ssa.Function
+
+func moduleImpls(c ssa.CallInstruction) []*ssa.Function {
+	iface, ok := c.Common().Value.Type().Underlying().(*types.Interface)
+	if !ok {
+		return nil
+	}
+	var out []*ssa.Function
+	for _, m := range ModuleMethods[c.Common().Method.Name()] {
+		if types.Implements(m.Signature.Recv().Type(), iface) {
+			out = append(out, m)
+		}
+	}
+	return out
+}
+
+// CallMayWriteField is the exported form for rules.
+func CallMayWriteField(c ssa.CallInstruction, f FieldRef) bool { return callMayWriteField(c, f) }
+
+func moduleFn(f *ssa.Function) bool {
+	if f.Pkg != nil {
+		return IsModule(f.Pkg.Pkg)
+	}
+	if o := f.Origin(); o != nil && o.Pkg != nil {
+		return IsModule(o.Pkg.Pkg)
+	}
+	if p := f.Parent(); p != nil {
+		return moduleFn(p)
+	}
+	return false
+}
+
+func fnMayWriteField(callee *ssa.Function, f FieldRef) bool {
+	key := f.String()
+	if m := mayWriteMemo[callee]; m != nil {
+		if r, ok := m[key]; ok {
+			return r
+		}
+	} else {
+		mayWriteMemo[callee] = map[string]bool{}
 	}
 	found := false
 	var visit func(fn *ssa.Function, d int)
 	seen := map[*ssa.Function]bool{}
 	visit = func(fn *ssa.Function, d int) {
-		if fn == nil || seen[fn] || fn.Blocks == nil || d > 3 {
+		if fn == nil || seen[fn] || fn.Blocks == nil || found {
+			return
+		}
+		if d > 6 {
+			found = true
 			return
 		}
 		seen[fn] = true
@@ -284,13 +367,32 @@ func callMayWriteField(c ssa.CallInstruction, f FieldRef) bool {
 					}
 				}
 			case ssa.CallInstruction:
-				if cc := StaticCallee(x); cc != nil {
+				if cc := StaticCallee(x); cc != nil && cc.Blocks != nil && moduleFn(cc) {
 					visit(cc, d+1)
+					return
 				}
+				// dynamic or external call: may write through a pointer to the struct it is given, or by
+				// calling back a module function it is given
+				for _, a := range CallArgs(x) {
+					if pt, ok := a.Type().Underlying().(*types.Pointer); ok {
+						if n, ok := pt.Elem().(*types.Named); ok && sameNamed(n, f.Struct) {
+							found = true
+						}
+					}
+					switch cb := a.(type) {
+					case *ssa.MakeClosure:
+						visit(cb.Fn.(*ssa.Function), d+1)
+					case *ssa.Function:
+						visit(cb, d+1)
+					}
+				}
+			case *ssa.MakeClosure:
+				visit(x.Fn.(*ssa.Function), d+1)
 			}
 		})
 	}
 	visit(callee, 0)
+	mayWriteMemo[callee][key] = found
 	return found
 }
 
@@ -385,7 +487,7 @@ func (z *ZEnv) lenOf(v ssa.Value, d int) Lin {
 		return LinConst(n)
 	}
 	if d > 40 {
-		return z.lenSym("len(" + z.Canon(v) + ")#deep")
+		return z.lenSymV("len("+z.Canon(v)+")#deep", v)
 	}
 	switch x := v.(type) {
 	case *ssa.Const:
@@ -433,14 +535,14 @@ func (z *ZEnv) lenOf(v ssa.Value, d int) Lin {
 			if subst != nil {
 				return z.lenOf(subst, d+1)
 			}
-			return z.lenSym("len(" + name + ")")
+			return z.lenSymV("len("+name+")", x)
 		}
 	case *ssa.Parameter:
-		return z.lenSym("len(" + x.Name() + ")")
+		return z.lenSymV("len("+x.Name()+")", x)
 	case *ssa.Phi:
 		return z.lenOfPhi(x, d)
 	}
-	return z.lenSym("len(" + z.Canon(v) + "'" + v.Name() + ")")
+	return z.lenSymV("len("+z.Canon(v)+"'"+v.Name()+")", v)
 }
 
 // lenOfPhi: the common linear form of all incoming lengths, constant bounds, or an opaque symbol.
@@ -455,7 +557,7 @@ func (z *ZEnv) lenOfPhi(x *ssa.Phi, d int) Lin {
 		return l
 	}
 	if z.phiLenBusy[x] || d > 8 {
-		return z.lenSym(name)
+		return z.lenSymV(name, x)
 	}
 	z.phiLenBusy[x] = true
 	var els []Lin
@@ -466,7 +568,7 @@ func (z *ZEnv) lenOfPhi(x *ssa.Phi, d int) Lin {
 		els = append(els, z.lenOf(e, d+1))
 	}
 	delete(z.phiLenBusy, x)
-	res := z.lenSym(name)
+	res := z.lenSymV(name, x)
 	if len(els) > 0 {
 		same, allC := true, true
 		var lo, hi int64
@@ -1250,6 +1352,27 @@ func (p *Prover) EdgeFacts(pred, succ *ssa.BasicBlock) []Fact {
 		return p.condAllFacts(iff.Cond, false, 0)
 	}
 	return nil
+}
+
+// ProveOnEdge proves goal >= 0 with the facts of pred plus the branch condition of the edge pred->succ.
+func (p *Prover) ProveOnEdge(goal Lin, pred, succ *ssa.BasicBlock) (bool, string) {
+	return p.proveOnEdge(goal, pred, succ)
+}
+
+// ProveEdgeValue proves goalOf(e) >= 0 on the edge; a merge phi is split into its incoming values.
+func (p *Prover) ProveEdgeValue(goalOf func(ssa.Value) Lin, e ssa.Value, pred, succ *ssa.BasicBlock, under *ssa.Phi) bool {
+	return p.proveEdgeValue(goalOf, e, pred, succ, under, 0)
+}
+
+// AllEdgeFacts: the facts available on the edge pred->succ.
+func (p *Prover) AllEdgeFacts(pred, succ *ssa.BasicBlock) []Fact {
+	return append(append([]Fact{}, p.FactsAt(pred)...), p.EdgeFacts(pred, succ)...)
+}
+
+// SymValue returns the SSA value a symbol stands for, if it was created from one.
+func (z *ZEnv) SymValue(name string) (ssa.Value, bool) {
+	v, ok := z.symVal[name]
+	return v, ok
 }
 
 func (p *Prover) proveOnEdge(goal Lin, pred, succ *ssa.BasicBlock) (bool, string) {
